@@ -3586,8 +3586,12 @@ debug={debug},
         ``\\r\\n`` in Windows)."""
         try:
             with open(filepath, "w", encoding=self.encoding) as newconf:
-                for line in self.get_text():
-                    newconf.write(line + "\n")
+                # line ends separate lines (read_config_file() splits on
+                # them), so do not add one after the last line
+                text = "\n".join(self.get_text())
+                if not text.endswith("\n"):
+                    text += "\n"
+                newconf.write(text)
             return True
         except BaseException as ee:
             logger.error(str(ee))
